@@ -160,7 +160,8 @@ func (s Schema) RenderToBaseType(to, from string) (string, error) {
 
 func (s Schema) FuncTypeName() string {
 	if s.Ref != nil {
-		return s.Ref.Name
+		// the conversion method of an alias component is declared under the titled name
+		return Title(s.Ref.Name)
 	}
 	return s.Type.FuncTypeName()
 }
